@@ -6,6 +6,7 @@ mod valsuite;
 mod ext;
 mod astser;
 mod execsuite;
+mod lexsuite;
 
 use std::io::{BufRead, Write};
 use sx::Sx;
@@ -38,6 +39,7 @@ fn run_case(line: &str) -> String {
             "f64" => valsuite::run_f64(&op, &args),
             "uni" => unicode::run_uni(&op, &args),
             "exec" => execsuite::run_exec(&op, &args),
+            "lex" => lexsuite::run_lex(&op, &args),
             _ => ext::run(&suite, &op, &args),
         }
     });
